@@ -291,8 +291,8 @@ def _bad_tb(nports, w, bp=False):
          pre=[f"0 <= k1 < {NK}", f"-1 <= k2 < {NK}", f"-1 <= k3 < {NK}", "-5 <= coef <= 40", "0 <= k0 <= 11", "0 <= style <= 2", "0 <= depth <= 2", "0 <= multi <= 2"],
          tiers={"quick": {"timeout": 170, "pre": ["k3 == -1", "coef == 7 or coef == -3", "depth <= 1", "multi == 0 or k2 == -1", "k0 == 1 or k0 == 6 or ((k1 == 11 or k1 == 4) and k0 <= 5)", "k2 in (-1, 0, 2, 5, 8, 11, 13, 14)"],
                           "parts": parts_product(parts_over("style", range(3)), [("g%d" % g, "%d <= k1 < %d" % (3 * g, 3 * g + 3)) for g in range(6)])},
-                "thorough": {"timeout": 1500, "pre": ["coef % 9 == 7 or coef == -3", "multi == 0 or k3 == -1"],
-                             "parts": parts_product(parts_over("style", range(3)), parts_over("k1", range(NK)))}},
+                "thorough": {"timeout": 600, "pre": ["coef % 9 == 7 or coef == -3", "multi == 0 or k3 == -1"],
+                             "parts": parts_product(parts_over("style", range(3)), parts_over("k1", range(NK)), parts_over("k2", range(-1, NK)), parts_over("k0", range(12)))}},
          sample=(5, 11, -1, 7, 3, 1, 1, True, 1),
          bounds=f"Sims of 1-2 (quick) / 1-3 (thorough) attributes over {NK} kinds (8 analyses incl. nested sweep / Monte-Carlo to depth 2, options of 4 value types, include, lib, save in all 6 target forms, measurements by name and by analysis, parameters, literals); 3 sweep kinds; numeric fields as Prefixed / int / float / Decimal over 6 prefixes; named or unnamed analyses; procedural / class-defined / add-method construction; alone, or in a list sharing or not sharing the testbench",
          generalises="selectors only (solver-enumerated; each Sim is exported concretely)", outside="longer attribute lists; deeper nesting; strings other than the generated names")
